@@ -721,6 +721,12 @@ impl Kernel {
         self.in_lib.iter().any(|b| *b)
     }
 
+    /// a descriptor-allocating call that is not modelled any further (pidfd_open, ...): it counts
+    /// as an allocation site for the `alloc_fd_fail` fault
+    pub fn fdalloc_site(&mut self) -> Option<i32> {
+        self.fdalloc_fault()
+    }
+
     fn fdalloc_fault(&mut self) -> Option<i32> {
         if !self.armed() {
             return None;
